@@ -255,6 +255,13 @@ pub fn check_map(
     for s in &map.sources {
         let abs = norm(&format!("{map_dir}/{s}"));
         if !inputs.contains_key(&abs) {
+            // a plugin's in-memory schema addition is listed as the pseudo source `(plugin)`; the statement
+            // speaks about sources that segments reference, so it is tolerated as long as none does (checked
+            // below: a segment pointing at it finds no token table)
+            if abs.ends_with("/(plugin)") {
+                src_paths.push(String::new());
+                continue;
+            }
             return Err(fail("source-not-an-input-file", format!("sources entry {s:?} resolves to {abs}, which is not a GraphQL input file")));
         }
         src_paths.push(abs);
@@ -288,6 +295,9 @@ pub fn check_map(
             return Err(fail("source-index-out-of-range", format!("segment {i}: source index {src} with {} sources", map.sources.len())));
         }
         used.insert(src);
+        if src_paths[src as usize].is_empty() {
+            return Err(fail("segment-into-virtual-source", "a segment refers to the plugin's virtual source, which is no GraphQL input file".to_string()));
+        }
         let toks = &inputs[&src_paths[src as usize]];
         let tok = token_at(toks, ol, oc);
         let Some(tok) = tok else {
@@ -455,11 +465,20 @@ pub fn expected_outputs(gp: &GenProject) -> Vec<String> {
 fn project_case(case: &mut Case, base: &Path) -> CaseResult {
     let mut po = ProjectOpts::default();
     po.wild_trivia = true;
+    po.plugins = true;
     po.doc.merged_key_with_variable_condition = true;
     let gp = gen_project(case, &po);
     let allow_minus_one = case.is_excluded("imported_fragment_in_map");
     let proj = write_project(&gp, base);
     let detail = json!({"config": gp.config, "files": gp.schema_files.iter().chain(gp.op_files.iter()).map(|(p, t)| json!({"path": p, "text": t})).collect::<Vec<_>>()});
+    // regeneration: in a third of the cases every output (and its map) already exists with longer, stale content
+    if case.ch.chance(1, 3) {
+        for out in expected_outputs(&gp) {
+            proj.write(&out, &format!("// stale\n{}", "export type Stale = number;\n".repeat(3000)));
+            proj.write(&format!("{out}.map"), &format!("{{\"version\":3,\"sources\":[\"stale.graphql\"],\"names\":[],\"mappings\":\"{}\"}}", "AAAA;".repeat(4000)));
+        }
+        case.label("outputs-overwritten");
+    }
     let run = run_cli(&proj.path(&gp.layout.root), &["generate", "--output-format", "json"]);
     let res = (|| -> CaseResult {
         if run.crashed() {
